@@ -116,6 +116,7 @@ type Spec struct {
 	// MinPaths guards against vacuity.
 	MinPaths  int
 	MaxVisits int
+	SymLoops  bool
 }
 
 // Result of checking a spec.
@@ -152,6 +153,7 @@ func Check(rule *report.Rule, cfg *Config, sp *Spec) *Result {
 	if sp.MaxVisits > 0 {
 		c.MaxVisits = sp.MaxVisits
 	}
+	c.SymLoops = sp.SymLoops
 	if len(sp.InlinePkgs) > 0 {
 		pk := map[string]bool{}
 		for _, r := range sp.InlinePkgs {
